@@ -94,6 +94,18 @@ type prefill struct {
 	Object string `json:"object,omitempty"`
 }
 
+// inSend is a write the reply consumer performs synchronously inside the send
+// function when a particular reply arrives (a slow / re-entrant transport is a
+// legal schedule): the write is acknowledged before send returns.
+type inSend struct {
+	Op      string `json:"op"`      // op-id of the query / sub / qsub whose reply triggers the write
+	Trigger string `json:"trigger"` // done: its (first) done | ok: its N-th ok record | note: its first upd/new
+	N       int    `json:"n,omitempty"`
+	Kind    string `json:"kind"` // create | update | delete
+	Key     string `json:"key"`
+	Payload []byte `json:"payload,omitempty"` // format byte + body
+}
+
 type dbCase struct {
 	NS         string    `json:"ns"`
 	Prefill    []prefill `json:"prefill"`
@@ -103,6 +115,7 @@ type dbCase struct {
 	SendYields int       `json:"send_yields,omitempty"` // the reply consumer yields this often per reply (a slow connection)
 	Bulk       int       `json:"bulk,omitempty"`        // additional JSON records NS/bulk<i> in every database of the case
 	BulkDBs    []string  `json:"bulk_dbs,omitempty"`
+	InSend     []inSend  `json:"in_send,omitempty"`
 }
 
 var caseCounter atomic.Int64
@@ -150,6 +163,9 @@ func (c *dbCase) render() string {
 	}
 	for i, m := range c.Msgs {
 		fmt.Fprintf(&b, "  msg %2d: %q\n", i, clip(string(m.Raw), 200))
+	}
+	for _, a := range c.InSend {
+		fmt.Fprintf(&b, "  inside send, on the %s (n=%d) of op %q: %s %q %q (acknowledged before send returns)\n", a.Trigger, a.N, a.Op, a.Kind, a.Key, clip(string(a.Payload), 80))
 	}
 	fmt.Fprintf(&b, "  (base64 of the messages: ")
 	for _, m := range c.Msgs {
